@@ -67,7 +67,7 @@ type deliveryRule struct {
 func (r *deliveryRule) Inline(fn *ssa.Function) bool {
 	// everything of package ebu that is statically called is followed, except the
 	// persist and shard functions, which are atomic events here
-	return PkgOf(fn) == PkgBus && fn != r.R.PersistFn && fn != r.R.ShardFn
+	return PkgOf(fn) == PkgBus && fn != r.R.PersistFn && fn != r.R.ShardFn && !r.R.FilterHelpers[fn]
 }
 
 func (r *deliveryRule) PredOK(key string) bool {
